@@ -48,6 +48,9 @@ package whispertool
 //@   ensures aligned: -2147483648 < interval - baseInterval && interval - baseInterval <= 2147483647
 //@                 && (interval - baseInterval) fmod a.secondsPerPoint == 0
 //@                 ==> result == ((interval - baseInterval) fdiv a.secondsPerPoint) fmod a.numberOfPoints
+//@   ensures idx: -2147483648 < interval - baseInterval && interval - baseInterval <= 2147483647
+//@                 && (interval - baseInterval) fmod a.secondsPerPoint == 0
+//@                 ==> result == idxOf(*a, baseInterval, interval)
 
 //@ func (*ArchiveInfo).pointOffsetAt
 //@   props C01 C06
@@ -173,6 +176,8 @@ package whispertool
 //@ spec wellFormed(aa ArchiveInfoList) bool = len(aa) > 0 && aa[0].offset == 16 + 12 * len(aa)
 //@        && (forall i :: 0 <= i && i < len(aa) ==> validArchive(aa[i]) && fits32(aa[i]))
 //@        && (forall i :: 0 <= i && i + 1 < len(aa) ==> pairOK(aa[i], aa[i+1]) && aa[i+1].offset == aa[i].offset + 12 * aa[i].numberOfPoints)
+//@        && (forall i :: 0 <= i && i < len(aa) ==> 16 + 12 * len(aa) <= aa[i].offset && aa[i].offset + 12 * aa[i].numberOfPoints <= fileEnd(aa))
+//@ spec fileEnd(aa ArchiveInfoList) int = aa[len(aa)-1].offset + 12 * aa[len(aa)-1].numberOfPoints
 
 //@ func validateAggregationMethod
 //@   props C07
@@ -202,6 +207,8 @@ package whispertool
 //@   invariant each: forall j :: 0 <= j && j < i ==> validArchive(aa[j]) && fits32(aa[j])
 //@   invariant pairs: forall j :: 0 <= j && j + 1 < len(aa) && j < i ==> pairOK(aa[j], aa[j+1])
 //@   invariant chain: forall j :: 0 <= j && j + 1 < i ==> aa[j+1].offset == aa[j].offset + 12 * aa[j].numberOfPoints
+//@   invariant within: forall j :: 0 <= j && j < i ==> 16 + 12 * len(aa) <= aa[j].offset && aa[j].offset + 12 * aa[j].numberOfPoints <= off
+//@   invariant offlow: 16 + 12 * len(aa) <= off
 
 //@ func (ArchiveInfoList).fillOffset
 //@   props C07 C06
@@ -366,3 +373,148 @@ package whispertool
 //@   invariant enough: len(entry(src)) >= 8 + 12 * count
 //@   invariant progress: src === entry(src)[8 + 12 * i:]
 //@   invariant decoded: forall k :: 0 <= k && k < i ==> (*pp)[k].Time == be32(entry(src), 8 + 12 * k) && bits((*pp)[k].Value) == be64(entry(src), 12 + 12 * k)
+
+// ---------------------------------------------------------------- file state: slots over the page buffer
+
+//@ spec slotTime(r bytes, off int) opaque int = r[off]*16777216 + r[off+1]*65536 + r[off+2]*256 + r[off+3]
+//@ spec slotBits(r bytes, off int) opaque int = r[off+4]*72057594037927936 + r[off+5]*281474976710656 + r[off+6]*1099511627776 + r[off+7]*4294967296
+//@        + r[off+8]*16777216 + r[off+9]*65536 + r[off+10]*256 + r[off+11]
+
+//@ func (*Whisper).readPointAt
+//@   props C01 C02 C15 C18
+//@   requires w != nil && w.fileBuf != nil
+//@   ensures bounds: offset + 12 > fsize(w.fileBuf) ==> result1 != nil
+//@   ensures kind: offset + 12 <= fsize(w.fileBuf) ==> result1 == nil || isio(result1)
+//@   ensures data: result1 == nil ==> result0.Time == slotTime(frow(w.fileBuf), offset) && bits(result0.Value) == slotBits(frow(w.fileBuf), offset)
+
+//@ func (*Whisper).putPointAt
+//@   props C01 C02 C05
+//@   requires w != nil && w.fileBuf != nil
+//@   modifies fb(w.fileBuf)
+//@   ensures bounds: offset + 12 > fsize(w.fileBuf) ==> result != nil
+//@   ensures kind: offset + 12 <= fsize(w.fileBuf) ==> result == nil || isio(result)
+//@   ensures data: result == nil ==> slotTime(frow(w.fileBuf), offset) == p.Time && slotBits(frow(w.fileBuf), offset) == bits(p.Value)
+//@   ensures frame: result == nil ==> forall o :: (o + 12 <= offset || o >= offset + 12) ==> slotTime(frow(w.fileBuf), o) == old(slotTime(frow(w.fileBuf), o))
+//@                 && slotBits(frow(w.fileBuf), o) == old(slotBits(frow(w.fileBuf), o))
+//@   ensures failed: result != nil ==> frow(w.fileBuf) == old(frow(w.fileBuf))
+
+//@ func (*Whisper).baseInterval
+//@   props C01 C02 C04
+//@   requires w != nil && w.fileBuf != nil && a != nil
+//@   ensures bounds: a.offset + 4 > fsize(w.fileBuf) ==> result1 != nil
+//@   ensures kind: a.offset + 4 <= fsize(w.fileBuf) ==> result1 == nil || isio(result1)
+//@   ensures data: result1 == nil ==> result0 == slotTime(frow(w.fileBuf), a.offset)
+
+// ---------------------------------------------------------------- read path (C01, C04)
+
+//@ func clearOldPoints
+//@   props C01
+//@   requires step > 0 && fromInterval + len(points) * step <= 4294967295
+//@   modifies points[0:len(points)]
+//@   ensures times: forall i :: 0 <= i && i < len(points) ==> points[i].Time == fromInterval + i * step
+//@   ensures kept: forall i :: 0 <= i && i < len(points) && old(points[i].Time) == fromInterval + i * step ==> bits(points[i].Value) == old(bits(points[i].Value))
+//@   ensures cleared: forall i :: 0 <= i && i < len(points) && old(points[i].Time) != fromInterval + i * step ==> bits(points[i].Value) == 9221120237041090561
+//@ loop clearOldPoints#0
+//@   invariant bounds: 0 <= i && i <= len(points)
+//@   invariant cur: currentInterval == fromInterval + i * step
+//@   invariant times: forall k :: 0 <= k && k < i ==> points[k].Time == fromInterval + k * step
+//@   invariant kept: forall k :: 0 <= k && k < i && old(points[k].Time) == fromInterval + k * step ==> bits(points[k].Value) == old(bits(points[k].Value))
+//@   invariant cleared: forall k :: 0 <= k && k < i && old(points[k].Time) != fromInterval + k * step ==> bits(points[k].Value) == 9221120237041090561
+//@   invariant rest: forall k :: i <= k && k < len(points) ==> points[k] == old(points[k])
+
+//@ func (Points).Values
+//@   props C01
+//@   ensures length: len(result) == len(pp) && fresh(result)
+//@   ensures vals: forall i :: 0 <= i && i < len(pp) ==> bits(result[i]) == bits(pp[i].Value)
+//@ loop (Points).Values#0
+//@   invariant bounds: 0 <= i && i <= len(pp) && len(values) == len(pp) && values.arr > old(top)
+//@   invariant vals: forall k :: 0 <= k && k < i ==> bits(values[k]) == bits(pp[k].Value)
+
+//@ spec handleOK(w *Whisper) bool = w != nil && w.fileBuf != nil && validHeader(w.header) && fsize(w.fileBuf) >= fileEnd(w.header.archiveInfoList)
+
+//@ func (*Whisper).findBestArchive
+//@   props C03 C04
+//@   requires handleOK(w)
+//@   ensures range: 0 <= result && result < len(w.header.archiveInfoList)
+//@   ensures finer_too_short: -2147483648 < now - t && now - t <= 2147483647 ==> forall j :: 0 <= j && j < result ==> retention(w.header.archiveInfoList[j]) < now - t
+//@   ensures covers: -2147483648 < now - t && now - t <= 2147483647 ==> retention(w.header.archiveInfoList[result]) >= now - t || result == len(w.header.archiveInfoList) - 1
+//@ loop (*Whisper).findBestArchive#0
+//@   invariant bounds: 0 <= i && i <= len(w.header.archiveInfoList)
+//@   invariant id0: i == 0 ==> archiveID == 0
+//@   invariant idn: i > 0 ==> archiveID == i - 1
+//@   invariant short: -2147483648 < now - t && now - t <= 2147483647 ==> forall j :: 0 <= j && j < i ==> retention(w.header.archiveInfoList[j]) < now - t
+
+//@ spec archOf(w *Whisper, k int) ArchiveInfo = w.header.archiveInfoList[k]
+//@ spec idxOf(a ArchiveInfo, base int, t int) opaque int = ((t - base) fdiv a.secondsPerPoint) fmod a.numberOfPoints
+//@ spec ringAt(f int, i int, n int) int = ite(f + i < n, f + i, f + i - n)
+//@ spec slotOff(a ArchiveInfo, j int) int = a.offset + 12 * j
+//@ spec baseOf(w *Whisper, k int) int = slotTime(frow(w.fileBuf), archOf(w, k).offset)
+//@ spec slotT(w *Whisper, k int, j int) int = slotTime(frow(w.fileBuf), archOf(w, k).offset + 12 * j)
+//@ spec slotB(w *Whisper, k int, j int) int = slotBits(frow(w.fileBuf), archOf(w, k).offset + 12 * j)
+//@ spec stepOf(w *Whisper, k int) int = archOf(w, k).secondsPerPoint
+//@ spec countOf(w *Whisper, k int) int = archOf(w, k).numberOfPoints
+//@ spec alignedWin(w *Whisper, k int, from int, until int) bool = (from - baseOf(w, k)) fmod stepOf(w, k) == 0 && (until - from) fmod stepOf(w, k) == 0
+//@        && (until - from) / stepOf(w, k) <= countOf(w, k)
+//@        && -2147483648 < from - baseOf(w, k) && until - baseOf(w, k) <= 2147483647
+
+//@ func (*Whisper).fetchRawPoints
+//@   props C01 C02 C15
+//@   requires handleOK(w) && 0 <= archiveID && archiveID < len(w.header.archiveInfoList)
+//@   requires fromInterval < untilInterval && untilInterval - fromInterval <= 2147483647
+//@   requires (untilInterval - fromInterval) / stepOf(w, archiveID) <= countOf(w, archiveID) + 1
+//@   allocates <= 2 * fsize(w.fileBuf) + 32
+//@   use idx_facts(archOf(w, archiveID), baseOf(w, archiveID), fromInterval, (untilInterval - fromInterval) / stepOf(w, archiveID)) when alignedWin(w, archiveID, fromInterval, untilInterval)
+//@   ensures kind: result1 == nil || isio(result1)
+//@   ensures length: result1 == nil ==> len(result0) == (untilInterval - fromInterval) / stepOf(w, archiveID) && fresh(result0)
+//@   ensures slots: result1 == nil && alignedWin(w, archiveID, fromInterval, untilInterval)
+//@                 ==> forall i :: 0 <= i && i < len(result0) ==>
+//@                     result0[i].Time == slotT(w, archiveID, ringAt(idxOf(archOf(w, archiveID), baseOf(w, archiveID), fromInterval), i, countOf(w, archiveID)))
+//@                     && bits(result0[i].Value) == slotB(w, archiveID, ringAt(idxOf(archOf(w, archiveID), baseOf(w, archiveID), fromInterval), i, countOf(w, archiveID)))
+//@ loop (*Whisper).fetchRawPoints#0
+//@   invariant cnt: 0 <= i && i <= len(points) && off == fromOffset + 12 * i && off <= untilOffset
+//@   invariant read: forall j :: 0 <= j && j < i ==> points[j].Time == slotTime(frow(w.fileBuf), fromOffset + 12 * j) && bits(points[j].Value) == slotBits(frow(w.fileBuf), fromOffset + 12 * j)
+//@ loop (*Whisper).fetchRawPoints#1
+//@   invariant cnt: 0 <= i && i <= len(points) && off == fromOffset + 12 * i && off <= arcEndOffset
+//@   invariant read: forall j :: 0 <= j && j < i ==> points[j].Time == slotTime(frow(w.fileBuf), fromOffset + 12 * j) && bits(points[j].Value) == slotBits(frow(w.fileBuf), fromOffset + 12 * j)
+//@ loop (*Whisper).fetchRawPoints#2
+//@   invariant cnt: 0 <= i && i <= len(points) && off <= untilOffset && (i == len(points) || off == arcStartOffset + 12 * (i - (arcEndOffset - fromOffset) / 12))
+//@   invariant i_low: (arcEndOffset - fromOffset) / 12 <= i || i == len(points)
+//@   invariant read1: forall j :: 0 <= j && j < i && j < (arcEndOffset - fromOffset) / 12 ==> points[j].Time == slotTime(frow(w.fileBuf), fromOffset + 12 * j) && bits(points[j].Value) == slotBits(frow(w.fileBuf), fromOffset + 12 * j)
+//@   invariant read2: forall j :: (arcEndOffset - fromOffset) / 12 <= j && j < i ==> points[j].Time == slotTime(frow(w.fileBuf), arcStartOffset + 12 * (j - (arcEndOffset - fromOffset) / 12))
+//@                 && bits(points[j].Value) == slotBits(frow(w.fileBuf), arcStartOffset + 12 * (j - (arcEndOffset - fromOffset) / 12))
+
+//@ lemma mod_unique(a int, N int, k int, r int)
+//@   props C01 C02
+//@   requires N > 0 && a == N * k + r && 0 <= r && r < N
+//@   ensures unique: a fmod N == r && a fdiv N == k
+//@ lemma mod_add(q int, m int, N int)
+//@   props C01 C02
+//@   requires N > 0
+//@   use mod_unique(q + m, N, q fdiv N + (q fmod N + m) fdiv N, (q fmod N + m) fmod N)
+//@   ensures add: (q + m) fmod N == (q fmod N + m) fmod N
+//@ lemma idx_shift(S int, N int, d int, m int)
+//@   props C01 C02
+//@   requires S > 0 && N > 0 && d fmod S == 0
+//@   use mod_add(d fdiv S, m, N)
+//@   ensures div: (d + m * S) fdiv S == d fdiv S + m
+//@   ensures shift: ((d + m * S) fdiv S) fmod N == ((d fdiv S) fmod N + m) fmod N
+//@ lemma align_shift(S int, d int, m int)
+//@   props C01 C02
+//@   requires S > 0 && d fmod S == 0
+//@   ensures aligned: (d + m * S) fmod S == 0
+//@ lemma mod_small(x int, n int)
+//@   props C01 C02
+//@   requires n > 0 && 0 <= x && x < 2 * n
+//@   ensures small: x fmod n == ite(x < n, x, x - n)
+//@ lemma idx_facts(a ArchiveInfo, base int, t int, m int)
+//@   props C01 C02
+//@   requires validArchive(a) && (t - base) fmod a.secondsPerPoint == 0 && 0 <= m && m <= a.numberOfPoints
+//@   use idx_shift(a.secondsPerPoint, a.numberOfPoints, t - base, m)
+//@   use mod_small(((t - base) fdiv a.secondsPerPoint) fmod a.numberOfPoints + m, a.numberOfPoints)
+//@   ensures range: 0 <= idxOf(a, base, t) && idxOf(a, base, t) < a.numberOfPoints
+//@   ensures shift: idxOf(a, base, t + m * a.secondsPerPoint) == ringAt(idxOf(a, base, t), m, a.numberOfPoints)
+//@   ensures aligned: (t + m * a.secondsPerPoint - base) fmod a.secondsPerPoint == 0
+//@ lemma idx_inj(S int, N int, d1 int, d2 int)
+//@   props C01
+//@   requires S > 0 && N > 0 && d1 fmod S == 0 && d2 fmod S == 0 && d1 != d2 && d1 - d2 < N * S && d2 - d1 < N * S
+//@   ensures distinct: (d1 fdiv S) fmod N != (d2 fdiv S) fmod N
